@@ -383,3 +383,7 @@ func (k *Kernel) PokeAllEpolls() {
 		}
 	}
 }
+
+// SockFaulted reports whether an injected (non-retryable) fault fired on the
+// descriptor of this endpoint.
+func (k *Kernel) SockFaulted(s *Sock) bool { return s != nil && s.file != nil && k.faulted[s.file] }
